@@ -9,9 +9,13 @@ import cbcheck as cc
 
 
 def setup():
+    # the variants have separate target directories, so four builds can run side by side
+    from concurrent.futures import ThreadPoolExecutor
+    names = ["release", "checked", "wide", "eio", "eio-async", "eio-both", "eio-both-nostd", "eio-nostd", "eio-async-nostd", "nostd", "alloc", "opt0", "unstable"]
+    with ThreadPoolExecutor(max_workers=4) as ex:
+        results = list(ex.map(lambda v: (v,) + tuple(cc.build(v, fatal=False)), names))
     ok = True
-    for v in ["release", "checked", "wide", "eio", "eio-async", "eio-both", "eio-both-nostd", "eio-nostd", "eio-async-nostd", "nostd", "alloc", "opt0", "unstable"]:
-        r, info = cc.build(v, fatal=False)
+    for v, r, info in results:
         cc.log(f"build {v}: {'ok ' + info if r else 'FAILED'}")
         if not r:
             cc.log(info)
@@ -157,6 +161,7 @@ def run(prop, tier, seed):
                            "13 capacities x 66 constructed layouts x every listed operation/argument class, each followed by a fixed 4-step tail", extra_cov=extra)
     if prop == "C17":
         extra = core_only_builds(prop, tier, seed)
+        extra.update(freestanding_run(prop, tier, seed))
         runs = [("crate-features-std", "release", ["alloc"]), ("crate-features-none", "nostd", ["alloc"]), ("crate-features-alloc", "alloc", ["alloc"])]
         return run_reports(prop, tier, seed, runs, "replay-alloc",
                            ["the counting #[global_allocator] of the harness sees every heap allocation and reallocation of the process; counts are per thread",
@@ -364,6 +369,67 @@ def c16_nostd_traces(prop, tier, seed):
             "_extra_evaluations": sum(r["evaluations"] for r in reps.values())}
 
 
+def freestanding_dir():
+    src = os.path.join(cc.ROOT, "freestanding")
+    if cc.REPO == "/repo":
+        return src
+    dst = os.path.join(os.path.dirname(cc.HARNESS), "freestanding")
+    subprocess.run(["rsync", "-a", "--delete", src + "/", dst + "/"], check=True)
+    t = open(os.path.join(dst, "Cargo.toml")).read().replace('path = "/repo"', f'path = "{cc.REPO}"')
+    open(os.path.join(dst, "Cargo.toml"), "w").write(t)
+    return dst
+
+
+def freestanding_run(prop, tier, seed, only_profile=None, steps=None):
+    """'The crate works without std or an allocator': a no_std, no_main program without a #[global_allocator] links the crate
+    (default features off) and runs a seeded model-based self-check in it.  If anything in the graph pulls in `alloc`, the
+    link fails ("no global memory allocator found")."""
+    t0 = time.time()
+    d = freestanding_dir()
+    tdir = os.path.join(cc.TARGET, "freestanding")
+    steps = steps or (2_000_000 if tier == "thorough" else 100_000)
+    res = {}
+    for prof, args in (("debug", []), ("release", ["--release"])):
+        if only_profile and prof != only_profile:
+            continue
+        p = subprocess.run(["cargo", "build", "--offline", "--target-dir", tdir] + args, cwd=d, env=cc.ENV, stdout=subprocess.PIPE, stderr=subprocess.STDOUT, text=True)
+        if p.returncode != 0:
+            out = p.stdout
+            in_crate = ("no global memory allocator found" in out) or ("--> " + cc.REPO + "/src/" in out) or ("--> src/" in out and "circular-buffer" in out) \
+                or ("can't find crate for `std`" in out) or ("can't find crate for `alloc`" in out)
+            cc.log("\n".join(out.splitlines()[-25:]))
+            if in_crate:
+                os.makedirs(cc.REPLAYS, exist_ok=True)
+                path = os.path.join(cc.REPLAYS, f"{prop}-freestanding-build-{prof}.log")
+                open(path, "w").write(f"command: cargo build --offline {' '.join(args)} (cwd {d})\n\n" + out)
+                cc.log("a program without std and without a global allocator cannot be built against the crate with default features disabled")
+                cc.write_min_evidence(prop, tier, seed, time.time() - t0, 1, "freestanding program does not build / link")
+                cc.log(f"VIOLATION property={prop} replay={path}")
+                sys.exit(1)
+            cc.write_min_evidence(prop, tier, seed, time.time() - t0, 0, "could not build the freestanding fixture")
+            cc.inconclusive(f"property={prop}: the freestanding fixture failed to build for reasons outside the crate")
+        exe = os.path.join(tdir, prof, "cbverif-freestanding")
+        try:
+            r = subprocess.run([exe, str(seed), str(steps)], stdout=subprocess.PIPE, stderr=subprocess.STDOUT, text=True, timeout=1800)
+        except subprocess.TimeoutExpired:
+            cc.write_min_evidence(prop, tier, seed, time.time() - t0, 0, "freestanding self-check timed out")
+            cc.inconclusive(f"property={prop}: the freestanding self-check did not finish in time")
+        if r.returncode != 0 or "OK steps=" not in r.stdout:
+            msg = (r.stdout.strip().splitlines() or [f"exit {r.returncode}"])[-1]
+            path = cc.save_replay(prop, {"property": prop, "engine": "freestanding", "profile": prof, "seed": seed, "steps": steps,
+                                         "message": "no_std / no-allocator self-check against an array model: " + msg,
+                                         "case": {"engine": "freestanding", "profile": prof, "seed": seed, "steps": steps}})
+            cc.log(f"freestanding self-check ({prof}): {msg}")
+            cc.write_min_evidence(prop, tier, seed, time.time() - t0, 1, msg)
+            cc.log(f"VIOLATION property={prop} replay={path}")
+            sys.exit(1)
+        res[prof] = steps * 8
+    return {"freestanding_no_allocator_program": {"links_and_runs": True, "model_checked_steps": res,
+                                                   "what": "no_std + no_main + no #[global_allocator]; crate default features off; seeded random operations over capacities 0,1,2,3,5,8,16,33 "
+                                                           "compared with a shifting-array model after every step"},
+            "_extra_evaluations": sum(res.values())}
+
+
 def core_only_builds(prop, tier, seed):
     """The sentence 'builds without std / with alloc only': the library is built against a sysroot that has
     only `core` (resp. `core` + `alloc`), where a stray std/alloc dependency cannot resolve."""
@@ -378,7 +444,8 @@ def core_only_builds(prop, tier, seed):
             res[label] = "builds"
             continue
         out = p.stdout
-        in_crate = ("--> src/" in out) or ("can't find crate for `std`" in out) or ("can't find crate for `alloc`" in out)
+        in_crate = ("--> src/" in out) or ("can't find crate for `std`" in out) or ("can't find crate for `alloc`" in out) \
+            or ("(which `alloc` depends on)" in out) or ("(which `std` depends on)" in out)
         if in_crate:
             os.makedirs(cc.REPLAYS, exist_ok=True)
             path = os.path.join(cc.REPLAYS, "C17-build-" + ("core" if "core only" in label else "alloc") + ".log")
@@ -454,7 +521,12 @@ def replay(prop, path):
     if prop == "C17":
         if path.endswith(".log"):
             core_only_builds(prop, "quick", 0)
-            cc.log("the crate builds in both configurations now")
+            freestanding_run(prop, "quick", 0, steps=1000)
+            cc.log("the crate builds in all configurations now")
+            sys.exit(0)
+        if meta.get("engine") == "freestanding":
+            freestanding_run(prop, "quick", meta["seed"], only_profile=meta["profile"], steps=meta["steps"])
+            cc.log("the freestanding self-check passes")
             sys.exit(0)
         bad = False
         for v in ["release", "nostd", "alloc"]:
